@@ -96,6 +96,14 @@ func genC20(r *kernel.Rand) *kernel.Scenario {
 		}
 		st := kernel.St(op, "id", i, "assets", strings.Join(as, ","), "ego", -1, "dur", []int{1, 2, 30}[r.Intn(3)],
 			"async", r.Bool(0.3), "gap_us", []int{0, 10, 1000}[r.Intn(3)])
+		// the request's own content: who asks (idx), as secondary or not, with or
+		// without sub-channel states, and the balances per asset (zeros are
+		// common: a swap leaves each party empty on one ledger). bal<j> packs the
+		// two participants' balances of asset j.
+		st.A["sec"], st.A["idx"], st.A["subs"] = int64(r.Intn(2)), int64(r.Intn(2)), int64(r.Weighted([]int{3, 1}))
+		for j := 0; j < n; j++ {
+			st.A["bal"+strconv.Itoa(j)] = int64([]int{0, 0, 5, 9}[r.Intn(4)]*16 + []int{0, 0, 5, 9}[r.Intn(4)])
+		}
 		if op == "fund" && r.Bool(0.6) {
 			// index into the distinct ledgers in first-occurrence order; sometimes past the end
 			st.A["ego"] = int64(r.Intn(len(distinct) + 1))
